@@ -183,6 +183,19 @@ impl BinRead for CimMode {
         let submode = u8::read_options(reader, endian, ())?;
         let seltype = u8::read_options(reader, endian, ())?;
 
+        // the sub-mode conversions below only know the documented values
+        let submode_in_range = match discrim {
+            0 => submode <= CimSubModeNormal::PitInstructions as u8,
+            3 => submode <= CimSubModeGarage::Pass as u8,
+            _ => true,
+        };
+        if !submode_in_range {
+            return Err(binrw::Error::BadMagic {
+                pos,
+                found: Box::new(submode),
+            });
+        }
+
         let res = match discrim {
             0 => Self::Normal(submode.into()),
             1 => Self::Options,
